@@ -132,7 +132,14 @@ def make_spec(r, dt, pat, n=None, order=None):
     if r.random() < 0.3:
         for kw in ('index_min', 'index_max', 'spacing', 'direction'):
             if r.random() < 0.4:
-                fat[kw] = r.choice(['INCREASING', 'DECREASING']) if kw == 'direction' else r.choice([1, 7.5, -3, 1000])
+                v = r.choice(['INCREASING', 'DECREASING']) if kw == 'direction' else r.choice([0, 0.0, 1, 7.5, -3, 1000])
+                route = r.choice(['kw', 'dict', 'AttrSetup'])
+                if route != 'kw':
+                    d_ = {'value': v}
+                    if kw != 'direction' and r.random() < 0.4:
+                        d_['units'] = r.choice(['m', 's'])
+                    v = {'$setup': d_, 'route': route}
+                fat[kw] = v
                 sup.append(kw)
     sp['ops'].append(gen.frame_op('FR', [1, 2], **fat))
     sp['write'] = {'output_chunk_size': 2 ** 16, 'input_chunk_size': r.choice([None, 1, 2])}
